@@ -274,6 +274,15 @@ class Sym:
     def stream(self, data=b""):
         return shims.ShBytesIO(data)
 
+    def file_put(self, name, data):
+        """create a file with (possibly symbolic) contents; returns the path to hand to parse_file / build_file"""
+        path = "symx://" + name
+        shims.FILES[path] = data
+        return path
+
+    def file_get(self, path):
+        return shims.FILES.get(path)
+
     # control
     def assume(self, cond):
         c = tobool(cond) if isinstance(cond, (SymBool, SymInt)) else cond
@@ -357,6 +366,25 @@ class Conc:
 
     def stream(self, data=b""):
         return _io.BytesIO(data)
+
+    def file_put(self, name, data):
+        import tempfile, os
+        d = getattr(self, "_tmpdir", None)
+        if d is None:
+            d = self._tmpdir = tempfile.mkdtemp(prefix="symx_files_")
+            import atexit, shutil
+            atexit.register(shutil.rmtree, d, True)
+        path = os.path.join(d, name)
+        with open(path, "wb") as f:
+            f.write(bytes(data))
+        return path
+
+    def file_get(self, path):
+        import os
+        if not os.path.exists(path):
+            return None
+        with open(path, "rb") as f:
+            return f.read()
 
     def assume(self, cond):
         if not cond:
